@@ -185,18 +185,22 @@ Definition is_remove_fn (f : fname) : bool :=
   match f with FRemove | FRemoveIf | FDelete | FDeleteIf => true | _ => false end.
 
 Lemma parse_sfv_remove : forall c,
-  is_remove_fn (c_fn c) = true -> keywords_ok c = true -> not_test_not (c_test c) = true -> count_not_nil (c_count c) = true ->
+  is_remove_fn (c_fn c) = true -> keywords_ok c = true ->
   parse_sfv c = Some (mkSfv (s_start c) (c_end c) (match c_count c with CNum z => Some z | _ => None end) (c_from_end c)).
 Proof.
-  intros c Hf Hk Ht Hc. unfold keywords_ok in Hk. apply andb_true_iff in Hk as [K1 _].
+  intros c Hf Hk. unfold keywords_ok in Hk. apply andb_true_iff in Hk as [K1 _].
   assert (no_count (c_fn c) = false) as Nc by (destruct (c_fn c); cbn in Hf |- *; congruence).
   unfold parse_sfv, s_start. rewrite Nc.
-  destruct (c_test c) eqn:T; try discriminate.
-  - destruct (c_count c); try discriminate; reflexivity.
+  destruct (c_test c) eqn:T.
+  - destruct (c_count c); reflexivity.
   - destruct (is_if (c_fn c)) eqn:I.
     + assert (takes_no_test (c_fn c) = true) as Tn by (destruct (c_fn c); cbn in I |- *; congruence).
       rewrite Tn in K1. cbn in K1. discriminate.
-    + destruct (c_count c); try discriminate; reflexivity.
+    + destruct (c_count c); reflexivity.
+  - destruct (is_if (c_fn c)) eqn:I.
+    + assert (takes_no_test (c_fn c) = true) as Tn by (destruct (c_fn c); cbn in I |- *; congruence).
+      rewrite Tn in K1. cbn in K1. discriminate.
+    + destruct (c_count c); reflexivity.
 Qed.
 
 Theorem remove_meets_spec : forall c,
@@ -206,14 +210,7 @@ Proof.
   assert (Hb := Hd). split_dom Hb D2 D1 D0 D.
   unfold bounds_ok in Hb. apply andb_true_iff in Hb as [B1 B2].
   apply Nat.leb_le in B1, B2.
-  assert (not_test_not (c_test c) = true /\ count_not_nil (c_count c) = true) as [Htn Hcn].
-  { pose proof D0 as K. unfold keywords_ok in K. apply andb_true_iff in K as [K _].
-    destruct (c_fn c) eqn:F; try discriminate Hf; cbn in D, K.
-    - apply andb_true_iff in D. exact D.
-    - split; [|exact D]. destruct (c_test c); try discriminate; reflexivity.
-    - apply andb_true_iff in D. exact D.
-    - split; [|exact D]. destruct (c_test c); try discriminate; reflexivity. }
-  pose proof (parse_sfv_remove c Hf D0 Htn Hcn) as Hp.
+  pose proof (parse_sfv_remove c Hf D0) as Hp.
   assert (m_delete c (mkSfv (s_start c) (c_end c) (match c_count c with CNum z => Some z | _ => None end) (c_from_end c)) =
           RSeq (firstn (s_start c) (elems (c_seq c)) ++
                 from_end_wrap (c_from_end c) (rem_n (s_match c) (s_limit (c_count c)))
@@ -253,15 +250,27 @@ Proof.
 Qed.
 
 (* ---- substitute -------------------------------------------------------------------------------------- *)
-Lemma sub_loop_all : forall p new w n, (Z.of_nat (length w) <= n) ->
-  sub_loop p new w n = sub_n p new None w.
+(* the counting loop replaces the first n matches *)
+Lemma sub_loop_count : forall p new w n, 0 <= n ->
+  sub_loop p new w n = sub_n p new (Some (Z.to_nat n)) w.
 Proof.
   induction w as [|x t IH]; intros n Hn; [reflexivity|].
-  cbn [sub_loop sub_n option_map]. cbn [length] in Hn.
-  destruct (Z.leb_spec (n - 1) 0) as [Hle|Hgt].
-  - assert (t = []) as -> by (destruct t; [reflexivity|cbn [length] in Hn; lia]).
-    destruct (p x); reflexivity.
-  - rewrite IH by lia. destruct (p x); reflexivity.
+  cbn [sub_loop sub_n].
+  destruct (Z.leb_spec n 0) as [Hle|Hgt].
+  - assert (n = 0) by lia. subst. reflexivity.
+  - destruct (Z.to_nat n) as [|m] eqn:Hm; [lia|].
+    cbn [option_map pred]. destruct (p x).
+    + rewrite IH by lia. replace (Z.to_nat (n - 1)) with m by lia. reflexivity.
+    + rewrite IH by lia. rewrite Hm. reflexivity.
+Qed.
+
+(* a limit that is at least the number of elements is no limit *)
+Lemma sub_n_enough : forall p new w m, (length w <= m)%nat ->
+  sub_n p new (Some m) w = sub_n p new None w.
+Proof.
+  induction w as [|x t IH]; intros m Hm; [reflexivity|].
+  cbn [length] in Hm. destruct m as [|m]; [lia|].
+  cbn [sub_n option_map pred]. destruct (p x); rewrite IH by lia; reflexivity.
 Qed.
 
 Definition is_substitute_fn (f : fname) : bool :=
@@ -274,41 +283,45 @@ Proof.
   assert (Hb := Hd). split_dom Hb D2 D1 D0 D.
   unfold bounds_ok in Hb. apply andb_true_iff in Hb as [B1 B2].
   apply Nat.leb_le in B1, B2.
-  assert (count_not_num (c_count c) = true /\ m_sub_match c = s_match c) as [Hcn Hmm].
+  assert (m_sub_match c = s_match c) as Hmm.
   { unfold m_sub_match, s_match.
-    destruct (c_fn c) eqn:F; try discriminate Hf; cbn in D |- *.
-    - apply andb_true_iff in D as [Dt Dc]. split; [exact Dc|]. destruct (c_test c); try discriminate; reflexivity.
-    - split; [exact D|reflexivity].
-    - apply andb_true_iff in D as [Dt Dc]. split; [exact Dc|]. destruct (c_test c); try discriminate; reflexivity.
-    - split; [exact D|reflexivity]. }
+    destruct (c_fn c) eqn:F; try discriminate Hf; reflexivity. }
   assert (m_substitute c =
           RSeq (firstn (s_start c) (elems (c_seq c)) ++
                 from_end_wrap (c_from_end c) (sub_n (s_match c) (c_new c) (s_limit (c_count c)))
                   (slice (s_start c) (s_end c (elems (c_seq c))) (elems (c_seq c))) ++
                 skipn (s_end c (elems (c_seq c))) (elems (c_seq c)))) as Hm.
   { unfold m_substitute. rewrite Hmm.
-    assert (s_limit (c_count c) = None) as -> by (destruct (c_count c); try discriminate; reflexivity).
-    assert ((match c_count c with CNum z => if z <? 0 then Z.of_nat (length (elems (c_seq c))) else z | _ => Z.of_nat (length (elems (c_seq c))) end)
-            = Z.of_nat (length (elems (c_seq c)))) as Hn by (destruct (c_count c); try discriminate; reflexivity).
     set (l := elems (c_seq c)) in *.
+    set (n := match c_count c with CNum z => if z <? 0 then 0 else z | _ => Z.of_nat (length l) end).
+    (* the counting loop on any part of the sequence is the specification's limited replacement *)
+    assert (forall w, (length w <= length l)%nat ->
+            sub_loop (s_match c) (c_new c) w n = sub_n (s_match c) (c_new c) (s_limit (c_count c)) w) as Hloop.
+    { intros w Hw. unfold n, s_limit. destruct (c_count c) as [| |z].
+      - rewrite sub_loop_count by lia. apply sub_n_enough. lia.
+      - rewrite sub_loop_count by lia. apply sub_n_enough. lia.
+      - destruct (Z.ltb_spec z 0).
+        + rewrite sub_loop_count by lia. replace (Z.to_nat z) with (Z.to_nat 0) by lia. reflexivity.
+        + now rewrite sub_loop_count by lia. }
     assert (norm_end (length l) (c_end c) = s_end c l) as Hne by (apply norm_end_in_range; exact B2).
     assert (length (slice (s_start c) (s_end c l) l) = (s_end c l - s_start c)%nat) as Hlw by (unfold slice; rewrite firstn_length, skipn_length; lia).
     assert (RSeq (firstn (s_start c) l ++
               (if c_from_end c
-               then rev (sub_loop (s_match c) (c_new c) (rev (slice (s_start c) (norm_end (length l) (c_end c)) l)) (Z.of_nat (length l)))
-               else sub_loop (s_match c) (c_new c) (slice (s_start c) (norm_end (length l) (c_end c)) l) (Z.of_nat (length l))) ++
+               then rev (sub_loop (s_match c) (c_new c) (rev (slice (s_start c) (norm_end (length l) (c_end c)) l)) n)
+               else sub_loop (s_match c) (c_new c) (slice (s_start c) (norm_end (length l) (c_end c)) l) n) ++
               skipn (s_start c + length (slice (s_start c) (norm_end (length l) (c_end c)) l)) l) =
-            RSeq (firstn (s_start c) l ++ from_end_wrap (c_from_end c) (sub_n (s_match c) (c_new c) None) (slice (s_start c) (s_end c l) l) ++ skipn (s_end c l) l)) as Hgen.
+            RSeq (firstn (s_start c) l ++ from_end_wrap (c_from_end c) (sub_n (s_match c) (c_new c) (s_limit (c_count c))) (slice (s_start c) (s_end c l) l) ++ skipn (s_end c l) l)) as Hgen.
     { rewrite Hne, Hlw. replace (s_start c + (s_end c l - s_start c))%nat with (s_end c l) by lia.
       unfold from_end_wrap. destruct (c_from_end c).
-      - rewrite sub_loop_all; [reflexivity|]. rewrite rev_length, Hlw. lia.
-      - rewrite sub_loop_all; [reflexivity|]. rewrite Hlw. lia. }
-    unfold s_start in *.
+      - rewrite Hloop; [reflexivity|]. rewrite rev_length, Hlw. lia.
+      - rewrite Hloop; [reflexivity|]. rewrite Hlw. lia. }
+    unfold s_start in *. subst n.
     destruct (c_seq c) eqn:S; subst l; cbn [elems] in *.
-    - unfold slice. rewrite !skipn_nil, !firstn_nil. cbn [app]. unfold from_end_wrap. destruct (c_from_end c); reflexivity.
-    - rewrite Hn. exact Hgen.
-    - rewrite Hn. exact Hgen.
-    - rewrite Hn. exact Hgen. }
+    - unfold slice. rewrite !skipn_nil, !firstn_nil. cbn [app]. unfold from_end_wrap.
+      destruct (c_from_end c); destruct (s_limit (c_count c)) as [[|?]|]; reflexivity.
+    - exact Hgen.
+    - exact Hgen.
+    - exact Hgen. }
   unfold m_call, s_call.
   destruct (c_fn c) eqn:F; try discriminate Hf; rewrite Hm; reflexivity.
 Qed.
